@@ -178,6 +178,8 @@ def _classify(ctx, binp, recs, source):
         else:
             unmatched.append(i)
     if unmatched:
+        # history-dependent failures only reproduce as a whole sequence: examine `seq` cases first
+        unmatched.sort(key=lambda i: 0 if recs[i]["case"].get("k") == "seq" else 1)
         vcheck.handle_mismatches(ctx, binp, recs, unmatched, source)
     return len(unmatched)
 
@@ -214,7 +216,7 @@ CFG = {
     "run_modules": ["Verif.C12.Run"],
     "coq_dirs": ["C12"],
     "n": {"quick": 5000, "thorough": 200000},
-    "shard": 320,
+    "shard": 320, "max_report": 8,
     "level": "proof",
     "stages": [stage],
     "predicates": PREDICATES,
@@ -224,7 +226,9 @@ CFG = {
              "subnormals/min/max normals, 2^53 neighbourhood, 1e21 neighbourhood, short decimals, dyadic rationals placed on exact "
              "toFixed/toPrecision ties; s from: re-formatted doubles, exact midpoints between adjacent doubles (math/big, all digits, "
              "+-1 in the last place, up to 1200 digits), long digit strings with exponents, grammar edge cases and mutations, "
-             "radix-prefixed strings of 1..80 digits, integers that force a rounding decision at 53 bits; non-trivial = x finite "
+             "radix-prefixed strings of 1..80 digits, integers that force a rounding decision at 53 bits; plus `seq` cases: 6 big-number-path "
+             "conversions (decimal exponent +-(20..308), 17-100 digits) run in order in ONE process -- every conversion is a pure "
+             "function, so the model answers each step independently of the history; non-trivial = x finite "
              "non-zero (formatting) / input contains a digit (parsing); distinct = by hash of the case"),
     "theorem_names": ["parse_decimal_nearest_even", "parse_decimal_wellformed", "parse_decimal_pack", "divmod_spec",
                       "fixed_correct", "shortest_correct", "shortest_total", "of_bits_canonical", "neighbours_suffice",
